@@ -143,6 +143,7 @@ class Check:
         os.makedirs(COQ, exist_ok=True)
         with open(os.path.join(COQ, ".lock"), "w") as lk:
             fcntl.flock(lk, fcntl.LOCK_EX)
+            sh([os.path.join(VERIF, "tools/mkproject.sh")], check=True)
             if not os.path.exists(os.path.join(COQ, "Makefile.coq")) or \
                os.path.getmtime(os.path.join(COQ, "Makefile.coq")) < os.path.getmtime(os.path.join(COQ, "_CoqProject")):
                 sh("coq_makefile -f _CoqProject -o Makefile.coq", cwd=COQ, check=True)
